@@ -361,6 +361,30 @@ func ruleRunes(c *Ctx, r *Repo) {
 						}
 					}
 				}
+				// or through a helper of the package that hands back, as its i-th result on every path, the
+				// size decoded from its (only) string parameter
+				if as, ok := n.(*ast.AssignStmt); ok && len(as.Lhs) >= 2 && len(as.Rhs) == 1 {
+					if call, ok := as.Rhs[0].(*ast.CallExpr); ok && len(call.Args) == 1 {
+						if h := pkgFuncs(p)[calleeFunc(info, call)]; h != nil && h != fd && h.Recv == nil && h.Type.Params.NumFields() == 1 {
+							hp, hd := enumerateFunc(info, h)
+							for i, l := range as.Lhs {
+								id, isID := l.(*ast.Ident)
+								if !isID || id.Name == "_" {
+									continue
+								}
+								all := len(hp) > 0 && !hd.overflow
+								for _, q := range hp {
+									if q.Exit != "return" || i >= len(q.Ret) || q.Ret[i] != "unicode/utf8.DecodeRuneInString(ARG0)#1" {
+										all = false
+									}
+								}
+								if all {
+									sizeOf[objOf(info, id)] = types.ExprString(call.Args[0])
+								}
+							}
+						}
+					}
+				}
 				return true
 			})
 			ast.Inspect(fd.Body, func(n ast.Node) bool {
@@ -398,22 +422,42 @@ func ruleRunes(c *Ctx, r *Repo) {
 	if fd := FuncDecl(p, "FirstIsLower"); fd == nil {
 		c.Fail("R16.3", "FirstIsLower|missing", "template_funcs/functions.go", "FirstIsLower not found")
 	} else {
-		paths, _ := enumerateFunc(info, fd)
-		ok := len(paths) > 0
+		// every path answers true or false (a boolean result is a decision; private helpers are followed):
+		// true only where unicode.IsLower of the first decoded rune of the argument held, false only where it
+		// did not hold or the string was found empty / not to start with a valid rune (IsLower is false there too)
+		fdt := newDT(info)
+		fdt.callInline = map[*types.Func]*ast.FuncDecl{}
+		for fn, g := range pkgUnexported(p) {
+			if g != fd {
+				fdt.callInline[fn] = g
+			}
+		}
+		fdt.hoistCalls = true
+		fdt.boolReturns = true
+		fdt.paths = nil
+		fdt.stmts(seedEnv(fdt, fd), fd.Body.List, func(q *dtPath) { fdt.finish(q, "end") })
+		paths := fdt.paths
+		ok := len(paths) > 0 && !fdt.overflow
+		const isLower = "unicode.IsLower(unicode/utf8.DecodeRuneInString(ARG0)#0)"
 		for _, q := range paths {
-			if q.Exit != "return" || len(q.Ret) != 1 {
+			if q.Exit != "return" || len(q.Ret) != 1 || (q.Ret[0] != "true" && q.Ret[0] != "false") {
 				ok = false
 				continue
 			}
-			empty, has := q.atom("builtin.len(ARG0) == 0")
-			if !has {
-				empty, has = q.atom(`ARG0 == ""`)
+			lower, tested := q.atom(isLower)
+			degenerate := false
+			for _, a := range q.Atoms {
+				switch {
+				case (a.Expr == "builtin.len(ARG0) == 0" || a.Expr == `ARG0 == ""`) && a.Val:
+					degenerate = true
+				case strings.Contains(a.Expr, "unicode/utf8.RuneError") && strings.Contains(a.Expr, "DecodeRuneInString(ARG0)"):
+					degenerate = true
+				}
 			}
-			switch {
-			case has && empty:
-				ok = ok && q.Ret[0] == "false"
-			default:
-				ok = ok && q.Ret[0] == "unicode.IsLower(unicode/utf8.DecodeRuneInString(ARG0)#0)"
+			if q.Ret[0] == "true" {
+				ok = ok && tested && lower
+			} else {
+				ok = ok && (tested && !lower || degenerate)
 			}
 		}
 		c.Check(ok, "R16.3", "FirstIsLower|semantics", r.Pos(fd.Pos()), "false for \"\", else unicode.IsLower(first rune)", "FirstIsLower is not 'false for the empty string, otherwise unicode.IsLower of the first decoded rune' on every path")
@@ -425,6 +469,14 @@ func ruleRunes(c *Ctx, r *Repo) {
 		ok := true
 		for _, rg := range regionsOf(fd) {
 			d := newDT(info)
+			// the initialism lookup may sit in a private helper: followed
+			d.callInline = map[*types.Func]*ast.FuncDecl{}
+			for fn, g := range pkgUnexported(p) {
+				if g != fd {
+					d.callInline[fn] = g
+				}
+			}
+			d.hoistCalls = true
 			d.paths = nil
 			start := seedEnv(d, fd)
 			if rs, isRange := rg.pos.(*ast.RangeStmt); isRange {
